@@ -42,9 +42,13 @@ def find_case(ctx, cid):
     return None
 
 
+BUILD_KW = {"extra_consts": '  PublishMode = "pending"\n'}      # TraceBuild validates against the repaired publication protocol
+
+
 def judge_file(ctx, module, cases_path, tag, budget="10s", workers=None, pvh=None):
     trace = fam_codec.run_cases(pvh or ctx.pvh, cases_path, ctx.work, tag, budget=budget, workers=workers)
-    verdicts, st = vlib.judge(ctx.work, module, trace, ctx.env, ctx.open, tag=tag, **getattr(ctx, "judge_kw", {}))
+    kw = BUILD_KW if module == "TraceBuild" else getattr(ctx, "judge_kw", {})
+    verdicts, st = vlib.judge(ctx.work, module, trace, ctx.env, ctx.open, tag=tag + module[-5:], **kw)
     return trace, verdicts, st
 
 
@@ -79,6 +83,8 @@ def confirm(ctx, module, cid, want_class):
         module, alias = ("TraceCodec", "any") if ev == "codec" else ("TraceDecode", "C03")
     if line is None:
         raise Broken("case %d not found for confirmation" % cid)
+    if want_class.startswith("hook-trace"):
+        module = "TraceBuild"
     rd = os.path.join(vlib.ROOT, "replays", ctx.prop)
     if os.environ.get("VERIF_REPO"):      # development runs against a scratch copy keep their replays apart
         rd = os.path.join(vlib.ROOT, "replays", "_scratch", "%s-%d" % (ctx.prop, os.getpid()))
@@ -146,6 +152,8 @@ def replay(ctx, path):
     module = MODULES[ctx.prop]
     ctx.case_files = [path]
     trace, verdicts, st = judge_file(ctx, module, path, "replay", budget="30s", workers=1)
+    if ctx.prop == "C07":
+        verdicts += judge_file(ctx, "TraceBuild", path, "replayb", budget="30s", workers=1)[1]
     rc = 0
     for (i, p, r) in verdicts:
         print("verdict case=%d property=%s %s" % (i, p, r))
@@ -641,11 +649,11 @@ def plan_C07(ctx):
     import random, fam_sched
     ctx.build()
     # 1. design: all interleavings of codec construction (repaired protocol) and of interning
-    fams2 = ["WantRS", "WantRR", "WantP", "WantM", "WantAB", "WantAsB", "WantN", "WantF", "WantFR"]
-    runs = [(w, "{p1, p2}") for w in fams2] + ([] if ctx.quick else [("Want3", "{p1, p2, p3}"), ("Want3AB", "{p1, p2, p3}")])
+    fams2 = ["WantRS", "WantRR", "WantP", "WantM", "WantAB", "WantAsB", "WantN", "WantF", "WantFR", "WantD", "WantG", "WantKR"]
+    runs = [(w, "{p1, p2}") for w in fams2] + ([] if ctx.quick else [("WantK", "{p1, p2}"), ("Want3", "{p1, p2, p3}"), ("Want3AB", "{p1, p2, p3}")])
     def mc_build(wp):
         w, procs = wp
-        cfg = ("CONSTANTS\n  p1 = p1\n  p2 = p2\n  p3 = p3\n  Procs = %s\n  Want <- %s\n  Publish = \"pending\"\nSPECIFICATION Spec\n"
+        cfg = ("CONSTANTS\n  p1 = p1\n  p2 = p2\n  p3 = p3\n  Procs = %s\n  Want <- %s\n  TypeDef <- MCTypeDef\n  Publish = \"pending\"\nSPECIFICATION Spec\n"
                "INVARIANTS NoIncompleteUse RegistryClosed RegistryComplete SameResult\nCHECK_DEADLOCK FALSE\n" % (procs, w))
         out, st = vlib.tlc(ctx.work, "MCBuild", cfg, name="mcb_" + w, workers=4, timeout=3000, heap="6g")
         if "is violated" in out or "Error:" in out or st["rc"] != 0:
@@ -656,12 +664,12 @@ def plan_C07(ctx):
         for st in ex.map(mc_build, runs):
             ctx.add_mc(st)
     # liveness on the smallest family, and the negative control: the protocol before the repair is rejected by the same model
-    cfgl = ("CONSTANTS\n  p1 = p1\n  p2 = p2\n  p3 = p3\n  Procs = {p1, p2}\n  Want <- WantRS\n  Publish = \"pending\"\nSPECIFICATION FairSpec\nPROPERTY Terminates\nCHECK_DEADLOCK FALSE\n")
+    cfgl = ("CONSTANTS\n  p1 = p1\n  p2 = p2\n  p3 = p3\n  Procs = {p1, p2}\n  Want <- WantRS\n  TypeDef <- MCTypeDef\n  Publish = \"pending\"\nSPECIFICATION FairSpec\nPROPERTY Terminates\nCHECK_DEADLOCK FALSE\n")
     out, st = vlib.tlc(ctx.work, "MCBuild", cfgl, name="mcb_live", workers=4, timeout=1500)
     if "is violated" in out or "Error:" in out or st["rc"] != 0:
         raise Broken("liveness check of CodecBuild failed:\n" + vlib.tlc_brief(out))
     ctx.add_mc(st)
-    cfgn = ("CONSTANTS\n  p1 = p1\n  p2 = p2\n  p3 = p3\n  Procs = {p1, p2}\n  Want <- WantRS\n  Publish = \"direct\"\nSPECIFICATION Spec\nINVARIANTS NoIncompleteUse\nCHECK_DEADLOCK FALSE\n")
+    cfgn = ("CONSTANTS\n  p1 = p1\n  p2 = p2\n  p3 = p3\n  Procs = {p1, p2}\n  Want <- WantRS\n  TypeDef <- MCTypeDef\n  Publish = \"direct\"\nSPECIFICATION Spec\nINVARIANTS NoIncompleteUse\nCHECK_DEADLOCK FALSE\n")
     outn, _ = vlib.tlc(ctx.work, "MCBuild", cfgn, name="mcb_neg", workers=1, timeout=600)
     neg_ok = "Invariant NoIncompleteUse is violated" in outn
     if not neg_ok:
@@ -702,6 +710,21 @@ def plan_C07(ctx):
             f.write(open(t).read())
     ctx.racebin = racebin
     verdicts, jst = vlib.judge(ctx.work, "TraceSched", trace, ctx.env, ctx.open, tag="main")
+    # 4. the yield-hook logs of the scheduled executions, validated action by action against CodecBuild
+    vb, jb = vlib.judge(ctx.work, "TraceBuild", t1, ctx.env, ctx.open, tag="build", **BUILD_KW)
+    verdicts += vb
+    for k in ("generated", "distinct"):
+        jst[k] += jb[k]
+    neg_rejected = None
+    if not vb:
+        # the binding has teeth: the same logs are not behaviours of the model of the protocol before the repair
+        sample = os.path.join(ctx.work, "neg_trace.ndjson")
+        open(sample, "w").writelines(open(t1).readlines()[::5])
+        vn, _ = vlib.judge(ctx.work, "TraceBuild", sample, ctx.env, ctx.open, tag="buildneg", extra_consts='  PublishMode = "direct"\n')
+        neg_rejected = len(vn)
+        if neg_rejected == 0:
+            raise Broken("trace validation against CodecBuild is vacuous: the model of the pre-repair protocol accepts every recorded hook log")
+    log("hook logs validated against CodecBuild: %d events, %d model steps, %d rejected; pre-repair model rejects %s of a fifth of them" % (jb["events"], jb["distinct"], len(vb), neg_rejected))
     nhooks = 0
     for line in open(t1):
         nhooks += line.count('"point"')
@@ -715,7 +738,9 @@ def plan_C07(ctx):
         "atomicity and ordering are decided at the granularity of the yield hooks; data races in the memory-model sense are what the race detector reports on the "
         "replayed schedules and the stress run",
         "one P (GOMAXPROCS=1) during a scheduled replay so that sync.Pool hand-over between goroutines is deterministic"],
-        extra={"negative_control_model_rejects_pre_repair_protocol": neg_ok, "yield_points_granted": nhooks})
+        extra={"negative_control_model_rejects_pre_repair_protocol": neg_ok, "yield_points_granted": nhooks,
+               "hook_logs_validated_against_CodecBuild": jb["events"], "CodecBuild_steps_matched": jb["distinct"],
+               "hook_logs_rejected_by_pre_repair_model_in_sample": neg_rejected})
 
 
 def plan_C06(ctx):
